@@ -267,6 +267,22 @@ CHECKS["C13"] = dict(
     design="5/C13",
 )
 
+CHECKS["C12"] = dict(
+    text="PARTIAL proof. Proved: the generic PropDef getter / setter (every attribute property of every class): what is written is what is read back for every "
+    "value, None deletes, booleans use the ODF lexical form, with the single exception that the strings 'true' / 'false' read back as booleans "
+    "(propdef_roundtrip, propdef_identity); over the table DUMPED from the live registry at every run (110 tags / 89 classes): the registry is a function, "
+    "every tag dispatches to its class, every class is what its own tag dispatches to, an unknown tag falls back to Element, the unregistered exported "
+    "subclasses are exactly the known three. Decided by the harness: for every class of the live registry, 40 (quick) type-directed argument combinations "
+    "(None / bool / 0 vs None / XML-special strings / quotes / datetimes / Elements), arguments exposed by the properties, well-formed serialisation, same class "
+    "and same canonical XML after re-parse, properties equal after re-parse, clone; every access path {from_tag, children, get_elements, xpath, parent, clone, "
+    "get_element} on sample documents and on a fragment with unconventional namespace prefixes.",
+    note="The 89 constructors are not modelled: their agreement with the properties is decided by the oracle only (the class table of DESIGN.md was not "
+    "transcribed). The registry table is a dump of the running library, not a static translation. Family-specific arguments of Style, arguments stored in child "
+    "elements and arguments given as None are not compared with a property. Known finding C14-F3 ('true' / 'false' as strings) is reported at every run.",
+    technique="Lean 4 theorems (case analysis on the generic property model, decide over a table dumped from the live registry) + type-directed constructor / re-parse oracle",
+    design="5/C12",
+)
+
 NOT_YET = {}
 
 
